@@ -52,6 +52,7 @@ static const char* names[] = {
     "strict object pool, 1 object: pop || pop (blocks until the first handle dies)",
     "strict object pool, 2 objects: pop,push || pop,assign from pop || try_pop",
     "auto-creating pool capacity 1: pop,pop then release both || pop",
+    "batch allocator left at its default batch size: allocate,free || allocate,free",
 };
 int harness_configs() { return sizeof(names) / sizeof(names[0]); }
 const char* harness_config_name(int c) { return names[c]; }
@@ -107,6 +108,15 @@ void harness_main(int cfg) {
         std::thread c([&] { void* p = ba.allocate(); up.got(p); up.give(p); ba.deallocate(p); });
         c.join();
         bbmc::check(up.held_count() == 0, "bookkeeping");
+      }
+      bbmc::check(up.outstanding() == 0, "destroying the batch allocator did not return the prefetched pages upstream");
+      break;
+    }
+    case 10: {
+      {
+        BatchPageAllocator ba; ba.set_upstream(up);
+        auto body = [&] { void* p = ba.allocate(); up.got(p); up.give(p); ba.deallocate(p); };
+        std::thread a(body), b(body); a.join(); b.join();
       }
       bbmc::check(up.outstanding() == 0, "destroying the batch allocator did not return the prefetched pages upstream");
       break;
